@@ -116,7 +116,8 @@ def run(ctx):
             sib = cases.sibling_weights_permuted(ctx.rnd, spec)
             if sib is not None:
                 ctx.count("sibling_profiles")
-                ctx.guard("check", check_case, ctx, {"cfg": cfg, "profile": sib, "seed": ctx.rnd.randrange(10 ** 6)}, max_runs)
+                ctx.guard("check", check_case, ctx, {"cfg": cfg, "profile": sib, "seed": ctx.rnd.randrange(10 ** 6),
+                                                     "prelude": {"cfg": cfg, "profile": spec, "seed": 0}}, max_runs)
 
 
 def replay(ctx, case):
